@@ -736,13 +736,13 @@ var apiColls = []string{"c", "d"}
 type apiGen struct {
 	knownIDs   []interface{} // ids handed to earlier inserts (so later filters hit)
 	knownNames []string      // index names created earlier
-	r        *rng
-	openSess int64 // session with an open transaction, 0 if none
-	nextSess int64
-	full     bool // full operator grammar for everything (model-free oracles)
-	fullF    bool // full filter grammar (Model/Match.v is merged)
-	fullU    bool // full update grammar (after Model/Apply.v is merged)
-	fullP    bool // projections (after Model/Project.v is merged)
+	r          *rng
+	openSess   int64 // session with an open transaction, 0 if none
+	nextSess   int64
+	full       bool // full operator grammar for everything (model-free oracles)
+	fullF      bool // full filter grammar (Model/Match.v is merged)
+	fullU      bool // full update grammar (after Model/Apply.v is merged)
+	fullP      bool // projections (after Model/Project.v is merged)
 }
 
 func (g *apiGen) id() interface{} {
